@@ -413,10 +413,17 @@ impl Annotated<Schema> {
                         )
                     });
 
-                collect_type_parameters(type_parameters, &data_type.typed_parameters, args);
+                // NOTE: The type parameters of a data-type only make sense within its definition.
+                // So we bind them in a scope of their own. Otherwise, instantiating that same
+                // data-type differently further down (e.g. the inner `Foo<Int>` of
+                // `Foo<Foo<Int>>`) overrides the parameters of the instantiation we're in the
+                // middle of, and all its remaining fields end up with the wrong type.
+                let mut type_parameters = type_parameters.clone();
+
+                collect_type_parameters(&mut type_parameters, &data_type.typed_parameters, args);
 
                 let annotated = Schema::Data(
-                    Data::from_data_type(&data_type, modules, type_parameters, definitions)
+                    Data::from_data_type(&data_type, modules, &mut type_parameters, definitions)
                         .map_err(|e| e.backtrack(type_info))?,
                 );
 
